@@ -226,8 +226,9 @@ static void run_case(long long idx, const std::string& desc, const std::string& 
       std::string tok;
       while (is >> tok) if (tok.compare(0, 8, "timecnt=") != 0 && tok.compare(0, 8, "typecnt=") != 0) flags += tok + " ";
       for (auto& u : uniq) r.count("kf:" + u + " | " + flags);
+      // classification key: sanitizer signature + the fact flags (everything the known-findings predicates read)
+      for (auto& u : uniq) r.violation(u, "case " + desc + " (load " + (first_ok ? "ok" : "failed") + "): " + u + " " + facts_of(bytes), {"--case", std::to_string(idx)}, u + " | " + flags);
     }
-    for (auto& u : uniq) r.violation(u, "case " + desc + " (load " + (first_ok ? "ok" : "failed") + "): " + u + " " + facts_of(bytes), {"--case", std::to_string(idx)});
   }
 }
 
@@ -249,9 +250,9 @@ static size_t declared_len(const std::string& b) {  // what the (possibly edited
   return block_len(h2, 8);
 }
 
-struct Sel { long long next = 0; int shard = 0, nshards = 1; const std::set<long long>* skip = nullptr; long long only = -1;
+struct Sel { long long next = 0; int shard = 0, nshards = 1; const std::set<long long>* skip = nullptr; long long only = -1; long long resume_from = -1;
   // assigns the next case index; true if this process must build and run that case
-  bool take(long long* me) { *me = next++; if (only >= 0) return *me == only; return (*me % nshards) == shard && !(skip && skip->count(*me)); } };
+  bool take(long long* me) { *me = next++; if (only >= 0) return *me == only; return (*me % nshards) == shard && *me >= resume_from && !(skip && skip->count(*me)); } };
 typedef std::function<void(long long idx, const std::string& desc, const std::string& bytes, const Dev& dev)> Emit;
 
 // Every mutant costs an index whether or not this process builds it, so indices are stable across processes and builds.
@@ -511,9 +512,9 @@ int main(int argc, char** argv) {
     return hz::finish(a, total);
   }
   const int nshards = 256;
-  hz::PoolOpts po; po.workers = a.workers; po.hang_s = 8; po.hang_is_violation = true; po.max_restarts = 60; po.crash_is_violation = g_primary;
+  hz::PoolOpts po; po.workers = a.workers; po.hang_s = 8; po.hang_is_violation = true; po.max_restarts = 400; po.crash_is_violation = g_primary; po.resume = true;
   hz::run_shards(nshards, po, a.workdir, [&](const hz::ShardCtl& ctl, hz::Result& r) {
-    Sel sel; sel.shard = ctl.shard; sel.nshards = nshards; sel.skip = &ctl.skip;
+    Sel sel; sel.shard = ctl.shard; sel.nshards = nshards; sel.skip = &ctl.skip; sel.resume_from = ctl.resume_from;
     // the fixed-size degenerate family first, then the seeds in order: a deadline then only cuts a suffix of the
     // index space, and every index below the cut denotes the same input in every build
     gen_degenerate(a.thorough(), cap, sel, [&](long long me, const std::string& d, const std::string& b, const Dev& dv) {
